@@ -206,49 +206,49 @@ end Trie
 open Trie
 
 /-- last writer among the entries whose (accepted) path is `q` -/
-def lastMatch : List Entry → List Label → Option Route
+def lastMatch (lc : Char → Char) : List Entry → List Label → Option Route
   | [], _ => none
-  | e :: es, q => orE (lastMatch es q)
-      (if validPath (confPath e.host) = true ∧ confPath e.host = q then some e.route else none)
+  | e :: es, q => orE (lastMatch lc es q)
+      (if validPath (confPath lc e.host) = true ∧ confPath lc e.host = q then some e.route else none)
 
-theorem entryAt_foldl (es : List Entry) (q : List Label) (t : Trie Route) :
-    entryAt q (es.foldl (fun t e => Trie.set (confPath e.host) e.route t) t) =
-      orE (lastMatch es q) (entryAt q t) := by
+theorem entryAt_foldl (lc : Char → Char) (es : List Entry) (q : List Label) (t : Trie Route) :
+    entryAt q (es.foldl (fun t e => Trie.set (confPath lc e.host) e.route t) t) =
+      orE (lastMatch lc es q) (entryAt q t) := by
   induction es generalizing t with
   | nil => simp [lastMatch]
   | cons e es ih =>
     simp only [List.foldl, ih, entryAt_set, lastMatch, orE_assoc]
     congr 1
-    by_cases h : validPath (confPath e.host) = true ∧ confPath e.host = q
-    · have h' : validPath (confPath e.host) = true ∧ q = confPath e.host := ⟨h.1, h.2.symm⟩
+    by_cases h : validPath (confPath lc e.host) = true ∧ confPath lc e.host = q
+    · have h' : validPath (confPath lc e.host) = true ∧ q = confPath lc e.host := ⟨h.1, h.2.symm⟩
       rw [if_pos h', if_pos h]; rfl
-    · have h' : ¬ (validPath (confPath e.host) = true ∧ q = confPath e.host) :=
+    · have h' : ¬ (validPath (confPath lc e.host) = true ∧ q = confPath lc e.host) :=
         fun x => h ⟨x.1, x.2.symm⟩
       rw [if_neg h', if_neg h]; rfl
 
-theorem splatAt_foldl (es : List Entry) (q : List Label) (t : Trie Route) :
-    splatAt q (es.foldl (fun t e => Trie.set (confPath e.host) e.route t) t) =
-      orE (lastMatch es (q ++ [star])) (splatAt q t) := by
+theorem splatAt_foldl (lc : Char → Char) (es : List Entry) (q : List Label) (t : Trie Route) :
+    splatAt q (es.foldl (fun t e => Trie.set (confPath lc e.host) e.route t) t) =
+      orE (lastMatch lc es (q ++ [star])) (splatAt q t) := by
   induction es generalizing t with
   | nil => simp [lastMatch]
   | cons e es ih =>
     simp only [List.foldl, ih, splatAt_set, lastMatch, orE_assoc]
     congr 1
-    by_cases h : validPath (confPath e.host) = true ∧ confPath e.host = q ++ [star]
+    by_cases h : validPath (confPath lc e.host) = true ∧ confPath lc e.host = q ++ [star]
     · rw [if_pos h, if_pos h]; rfl
     · rw [if_neg h, if_neg h]; rfl
 
 /-- the trie built from a host table, read through `Get` -/
-theorem get_build (es : List Entry) (q : List Label) :
-    Trie.get q (buildHostRoute es) =
-      orE (lastMatch es q) ((ppd q).findSome? fun p => lastMatch es (p ++ [star])) := by
+theorem get_build (lc : Char → Char) (es : List Entry) (q : List Label) :
+    Trie.get q (buildHostRoute lc es) =
+      orE (lastMatch lc es q) ((ppd q).findSome? fun p => lastMatch lc es (p ++ [star])) := by
   rw [get_eq]
   unfold buildHostRoute
-  rw [entryAt_foldl, entryAt_empty, orE_none_right]
+  rw [entryAt_foldl lc, entryAt_empty, orE_none_right]
   congr 1
   congr 1
   funext p
-  rw [splatAt_foldl, splatAt_empty, orE_none_right]
+  rw [splatAt_foldl lc, splatAt_empty, orE_none_right]
 
 /-! ### reversed paths ↔ labels -/
 
@@ -347,10 +347,10 @@ theorem reverseFqdn_eq (s : List Char) : reverseFqdn s = (dropTrailingDot s).rev
   · next r h => simp
   · rfl
 
-theorem confPath_eq (h : List Char) : confPath h = rev (confLabels h) := by
+theorem confPath_eq (lc : Char → Char) (h : List Char) : confPath lc h = rev (confLabels lc h) := by
   unfold confPath confLabels; rw [reverseFqdn_eq, splitDot_reverse]
 
-theorem probePath_eq (h : List Char) : probePath h = rev (probeLabels h) := by
+theorem probePath_eq (lc : Char → Char) (h : List Char) : probePath lc h = rev (probeLabels lc h) := by
   unfold probePath probeLabels; rw [reverseFqdn_eq, splitDot_reverse]
 
 theorem reverse_eq_star (l : Label) : l.reverse = star ↔ l = star := by
@@ -404,25 +404,25 @@ theorem specExact_none_of_not_mem (ps : List (List Label × Route)) (l : List La
   simp [this]
 
 /-- under `WF`, last-writer lookup on reversed paths is the order-free lookup on label patterns -/
-theorem lastMatch_eq_specExact (es : List Entry) (l : List Label) (hwf : WF es) :
-    lastMatch es (rev l) = specExact (patterns es) l := by
+theorem lastMatch_eq_specExact (lc : Char → Char) (es : List Entry) (l : List Label) (hwf : WF lc es) :
+    lastMatch lc es (rev l) = specExact (patterns lc es) l := by
   induction es with
   | nil => rfl
   | cons e es ih =>
     unfold WF at hwf
     simp only [lastMatch, confPath_eq, validPath_rev, rev_inj]
-    by_cases hv : validPattern (confLabels e.host) = true
-    · have hp : patterns (e :: es) = (confLabels e.host, e.route) :: patterns es := by
+    by_cases hv : validPattern (confLabels lc e.host) = true
+    · have hp : patterns lc (e :: es) = (confLabels lc e.host, e.route) :: patterns lc es := by
         simp [patterns, hv]
       rw [hp] at hwf ⊢
       simp only [List.map_cons, List.nodup_cons] at hwf
       rw [ih hwf.2]
-      by_cases hl : confLabels e.host = l
+      by_cases hl : confLabels lc e.host = l
       · subst hl
         rw [specExact_none_of_not_mem _ _ hwf.1]
         simp [specExact, hv]
       · simp [specExact, hl, hv]
-    · have hp : patterns (e :: es) = patterns es := by
+    · have hp : patterns lc (e :: es) = patterns lc es := by
         simp [patterns, hv]
       rw [hp] at hwf ⊢
       rw [ih hwf]
